@@ -239,6 +239,23 @@ def powm1(ctx, x, y):
                     w = -w/p
             finally:
                 ctx.prec = orig
+        else:
+            # too large for that: x lies next to a unit u = 1, -1, i or -i
+            # with u**y = 1, and x**y = (x/u)**y; the quotient is exact
+            # and next to 1, where the logarithm is accurate
+            re, im = ctx._re(x)._mpf_, ctx._im(x)._mpf_
+            nre, nim = ctx.fneg(ctx._re(x), exact=True)._mpf_, \
+                ctx.fneg(ctx._im(x), exact=True)._mpf_
+            for k, v in ((0, (re, im)), (2, (nre, nim)), (1, (im, nre)),
+                (3, (nim, re))):
+                # v = x / i**k; the difference from 1 is formed exactly
+                # and rounded
+                d = ctx.make_mpc(v) - one
+                if not (k*n) % 4 and mag(d) < -8:
+                    w = ctx.expm1(y*ctx.log1p(d))
+                    if not ctx._im(x):
+                        w = ctx._re(w)
+                    break
     return w
 
 @defun
